@@ -172,6 +172,9 @@ pub enum WireItem {
 pub struct AsyncSinkIo {
     greeting_done: bool,
     limit: usize,
+    /// after every accepted write the transport is busy once (`Pending`, woken at once) before it takes more
+    wait_between_writes: bool,
+    busy: bool,
     pub sink: Arc<Mutex<Vec<u8>>>,
 }
 
@@ -187,9 +190,15 @@ impl tokio::io::AsyncRead for AsyncSinkIo {
 }
 
 impl tokio::io::AsyncWrite for AsyncSinkIo {
-    fn poll_write(self: std::pin::Pin<&mut Self>, _cx: &mut std::task::Context<'_>, buf: &[u8]) -> std::task::Poll<io::Result<usize>> {
+    fn poll_write(mut self: std::pin::Pin<&mut Self>, cx: &mut std::task::Context<'_>, buf: &[u8]) -> std::task::Poll<io::Result<usize>> {
+        if self.wait_between_writes && self.busy {
+            self.busy = false;
+            cx.waker().wake_by_ref();
+            return std::task::Poll::Pending;
+        }
         let n = buf.len().min(self.limit);
         self.sink.lock().unwrap().extend_from_slice(&buf[..n]);
+        self.busy = true;
         std::task::Poll::Ready(Ok(n))
     }
     fn poll_flush(self: std::pin::Pin<&mut Self>, _cx: &mut std::task::Context<'_>) -> std::task::Poll<io::Result<()>> {
@@ -215,7 +224,16 @@ pub fn drive_ready<F: std::future::Future>(fut: F) -> Result<F::Output, String> 
 
 /// Bytes `AsyncConnection::send` / `send_list` put on the wire over a short-writing transport.
 pub fn wire_async_limited(item: WireItem, limit: usize) -> Result<Vec<u8>, String> {
-    let io = AsyncSinkIo { greeting_done: false, limit, sink: Arc::new(Mutex::new(Vec::new())) };
+    wire_async(item, limit, false)
+}
+
+/// ... over a transport that takes `limit` bytes, is busy (Pending) once, takes `limit` more, ...
+pub fn wire_async_limited_waiting(item: WireItem, limit: usize) -> Result<Vec<u8>, String> {
+    wire_async(item, limit, true)
+}
+
+fn wire_async(item: WireItem, limit: usize, wait_between_writes: bool) -> Result<Vec<u8>, String> {
+    let io = AsyncSinkIo { greeting_done: false, limit, wait_between_writes, busy: false, sink: Arc::new(Mutex::new(Vec::new())) };
     let sink = io.sink.clone();
     let mut conn = drive_ready(mpd_protocol::AsyncConnection::connect(io))?.map_err(|e| format!("{e:?}"))?;
     match item {
